@@ -919,7 +919,16 @@ def query6(ctx) -> List[Ob]:
             out.append(bad("QUERY-6", cs.qualname, key, ctx.where(cs), whyg if not okg else "the adapter does not enumerate every block of the graph"))
         rr = [r for r in A.walk_no_nested(cs.node) if isinstance(r, ast.Return) and r.value is not None]
         key = "all components are returned"
-        if len(rr) == 1 and _strip_order(rr[0].value).startswith("scc(") :
+        from .common import expanded_function, strip_cast
+
+        rrx = [r for r in A.walk_no_nested(expanded_function(cs)) if isinstance(r, ast.Return) and r.value is not None]
+        def _ret_text(v):
+            v = strip_cast(v)
+            while isinstance(v, ast.Call) and isinstance(v.func, ast.Name) and v.func.id in ("sorted", "list", "tuple", "iter") and len(v.args) == 1 and not v.keywords:
+                v = strip_cast(v.args[0])
+            return A.unparse(v)
+
+        if len(rr) == 1 and len(rrx) == 1 and _ret_text(rrx[0].value).startswith("scc("):
             out.append(ok("QUERY-6", cs.qualname, key, ctx.where(cs, rr[0]), A.unparse(rr[0].value)[:50], nontrivial=False))
         else:
             out.append(bad("QUERY-6", cs.qualname, key, ctx.where(cs), "compute_scc does not return every component the routine yields"))
